@@ -31,7 +31,7 @@ def shards(tier, seed):
     if tier == "quick":
         n_sh, n, budget, npars = 8, 120, 40, 1
     else:
-        n_sh, n, budget, npars = 16, 2500, 300, 12
+        n_sh, n, budget, npars = 16, 8000, 300, 12
     return [{"name": f"dr{i}", "threads": 2, "timeout": budget * 4 + 300,
              "params": {"seed": seed, "shard": i, "n": n, "budget_s": budget, "npars": npars,
                         "tier": tier}} for i in range(n_sh)]
